@@ -216,7 +216,7 @@ func runC12(env *lib.Env, rep *lib.Report) {
 	// --- leaves: full product of size assignments and tombstone patterns for n <= 3 (quick) / 4 (thorough)
 	fullN := 3
 	if env.Thorough() {
-		fullN = 4
+		fullN = 5
 	}
 	for n := 0; n <= fullN; n++ {
 		nAssign := 1
